@@ -294,6 +294,7 @@ type Event struct {
 	Pkg    string
 	Line   int
 	When   Expr
+	In     string // optional: only inside this function (as top or inlined frame)
 	After  bool // for call events: run after the call (results bound to result/result0..)
 }
 
@@ -363,6 +364,9 @@ func (p *parser) dotted() (string, error) {
 		return "", err
 	}
 	for p.isOp(".") || p.isOp("/") {
+		if p.toks[p.p+1].kind != tIdent {
+			break
+		}
 		op := p.next().s
 		t, err := p.ident()
 		if err != nil {
@@ -788,11 +792,18 @@ func (p *parser) modItem() (*ModItem, error) {
 			return nil, err
 		}
 	}
-	i := strings.LastIndex(name, ".")
-	if i < 0 {
-		return nil, p.errf("modifies item must be Type.field, got %q", name)
+	if p.isOp(".") && p.toks[p.p+1].kind == tOp && p.toks[p.p+1].s == "*" {
+		p.next()
+		p.next()
+		name += ".*"
 	}
-	mi := &ModItem{Kind: kind, Type: name[:i], Path: name[i+1:], Line: line}
+	i := strings.LastIndex(name, ".")
+	var mi *ModItem
+	if i < 0 {
+		mi = &ModItem{Kind: "gglobal", Path: name, Line: line}
+	} else {
+		mi = &ModItem{Kind: kind, Type: name[:i], Path: name[i+1:], Line: line}
+	}
 	if p.isKw("at") {
 		p.next()
 		if err := p.expectOp("{"); err != nil {
@@ -888,6 +899,14 @@ func (p *parser) parseEvent() (*Event, error) {
 		return nil, err
 	}
 	ev.Vars = vars
+	if p.isKw("in") {
+		p.next()
+		fn, err := p.dotted()
+		if err != nil {
+			return nil, err
+		}
+		ev.In = fn
+	}
 	if p.isKw("when") {
 		p.next()
 		e, err := p.expr()
